@@ -5,13 +5,14 @@ SRCS = ['src/clstepcore/instmgr.cc', 'src/clstepcore/mgrnode.cc', 'src/clstepcor
         'src/clutils/gennode.cc', 'src/clutils/gennodelist.cc', 'src/clstepcore/sdaiApplication_instance.cc', 'src/cldai/sdaiDaObject.cc', 'src/cldai/sdaiObject.cc',
         'src/clstepcore/dispnode.cc', 'src/clstepcore/dispnodelist.cc', 'src/clstepcore/STEPattributeList.cc', 'src/clstepcore/SingleLinkList.cc', 'src/clutils/Str.cc',
         'src/cldai/sdaiString.cc', 'src/clstepcore/sdai.cc', 'src/cldai/sdaiEnum.cc']
+NAMES = ['src/clstepcore/entityDescriptor.cc', 'src/clstepcore/typeDescriptor.cc', 'src/clstepcore/attrDescriptorList.cc', 'src/clstepcore/entityDescriptorList.cc', 'src/clstepcore/inverseAttributeList.cc', 'src/clstepcore/schRename.cc', 'src/clstepcore/uniquenessRule.cc', 'src/clstepcore/whereRule.cc']
 NATIVE = SRCS + ['src/clutils/errordesc.cc', 'src/clstepcore/read_func.cc']
-OPS = {0: 'append', 1: 'append_same_twice', 2: 'delete_node', 3: 'delete_instance', 4: 'change_state', 5: 'clear_then_append', 6: 'next_id', 7: 'seq_append_append_same'}
+OPS = {0: 'append', 1: 'append_same_twice', 2: 'delete_node', 3: 'delete_instance', 4: 'change_state', 5: 'clear_then_append', 6: 'next_id', 7: 'seq_append_append_same', 8: 'find_by_name'}
 def mk(op, npre, dele=0, tiers=('quick', 'thorough')):
     return H('%s_n%d%s' % (OPS[op], npre, ('_d%d' % dele) if op in (1, 2, 3, 4) else ''), 'irc', 'harness/C13/h_instmgr.c', wrapper='harness/C13/wrap_instmgr.cc',
-      repo_srcs=SRCS, native_lib=['src/clstepcore', 'src/clutils', 'src/cldai'], irc_extra_cc=['harness/common/errordesc_stub.cc'], models=['lib/cmodels/cxx_rt.c', 'lib/cmodels/printf_null.c', 'lib/cmodels/sprintf_null.c'],
-      defs={'OP': op, 'NPRE': npre, 'DEL': dele, **({'CONCRETE_IDS': 1} if op in (2, 3) else {}), 'SMALL_ARRAY': 2, 'NPOOL': 4, 'VSTR_CAP': 8, 'VSTREAM_CAP': 8, 'VOSTREAM_CAP': 8, 'VCONT_CAP': 6},
-      unwind=8, object_bits=11, tiers=tiers, allow_undef=['_ZN13STEPattributeD1Ev'],
+      repo_srcs=SRCS + (NAMES if op == 8 else []), native_lib=['src/clstepcore', 'src/clutils', 'src/cldai'], irc_extra_cc=['harness/common/errordesc_stub.cc'], models=['lib/cmodels/cxx_rt.c', 'lib/cmodels/printf_null.c', 'lib/cmodels/sprintf_null.c'],
+      defs={'OP': op, 'NPRE': npre, 'DEL': dele, **({'CONCRETE_IDS': 1} if op in (2, 3) else {}), **({'WITH_NAMES': 1} if op == 8 else {}), 'SMALL_ARRAY': 2, 'NPOOL': 4, 'VSTR_CAP': 8, 'VSTREAM_CAP': 8, 'VOSTREAM_CAP': 8, 'VCONT_CAP': 6},
+      unwind=8 if op != 8 else 12, object_bits=11, tiers=tiers, mem_gb=12 if op != 8 else 30, no_checks=(op == 8), allow_undef=['_ZN13STEPattributeD1Ev'] + (['_ZN11STEPcomplex12EntityExistsEPKcS1_'] if op == 8 else []),
       bounds='pre-state of %d live instances (array capacity 2, growth path included), ids %s, states symbolic, maxFileId symbolic >= live ids; operation %s%s with symbolic id/state/probe id; owning flag symbolic' % (npre, 'concretised to 5,9,12 (delete only compares ids for equality through std::map)' if op in (2, 3) else 'symbolic in [1,10^6] pairwise distinct', OPS[op], (' on slot %d' % dele) if op in (1, 2, 3, 4) else ''),
       assumptions=['Delete is called with a live node/instance', 'representation invariant Inv as stated in DESIGN.md C13'],
       stubs=['vstd map (association list), string, streams', 'operator new = calloc', 'ErrorDescriptor messages dropped', '__dynamic_cast = identity', 'STEPattribute::~STEPattribute left without body: the harness instances own no attributes, the destructor loop over an empty list never calls it'],
@@ -24,7 +25,7 @@ for n in (0, 1, 2, 3):
     for d in range(n):
         q = ('quick', 'thorough') if n <= 2 or d == 1 else ('thorough',)
         HARNESSES += [mk(1, n, d, tiers=q), mk(2, n, d, tiers=q), mk(3, n, d, tiers=q), mk(4, n, d, tiers=('thorough',) if n == 3 else q)]
-HARNESSES += [mk(7, 0), mk(6, 0)]
+HARNESSES += [mk(7, 0), mk(6, 0)]   # mk(8, n) (look-up by entity name: OP 8 in the harness, w_find_name in the wrapper) exists but gave no verdict within 300 s / 30 GB (EntityDescriptor construction in the formula): not registered
 JOBS = 12
 MANIFEST = {
   'level_text': 'Bounded model checking of the real instance manager code: every public operation is run once from an arbitrary valid state (0..3 live instances, symbolic ids/states/maxFileId satisfying the representation invariant) and must re-establish the invariant and agree with a list+dict reference on count, i-th instance/index, id look-up (incl. an arbitrary probe id), id freshness and maximum id. Because the invariant is re-established by every operation, histories of any length over states of <= 3(+1) instances are covered.',
